@@ -47,7 +47,7 @@ void irsym_observe(unsigned long v){ gHash = ((gHash ^ v) * 0x100000001b3UL) + 0
 void irsym_note(long, long){}
 void irsym_log(long run, long op, long level, long tgt, long src, long code){ gLogs[run].push_back({{op, level, tgt, src, code}}); }
 long irsym_logs_equal(long a, long b){ auto x = gLogs[a], y = gLogs[b]; std::sort(x.begin(), x.end()); std::sort(y.begin(), y.end()); return x == y; }
-long irsym_log_count(long run, long op){ long n = 0; for(auto& e : gLogs[run]) if(e[0] == op) ++n; return n; }
+long irsym_log_count(long run, long op){ long n = 0; for(auto& e : gLogs[run]){ if(op >= 1000){ if((e[0] == 2 || e[0] == 3 || e[0] == 4) && e[1] < op - 1000) ++n; } else if(e[0] == op) ++n; } return n; }
 void irsym_log_clear(long run){ gLogs[run].clear(); }
 long irsym_is_symbolic_run(void){ return 0; }
 }
